@@ -1130,6 +1130,19 @@ def run(prop, ops_path, impl_path, profile):
                         umap_iter_step(case, "s" + reg[1], toks, t, fails)
                     except Exception as ex:       # noqa: BLE001
                         fails.append("oracle-error: %r" % (ex,))
+                if fam & {"gdm", "unchecked"} and len(toks) >= 4 and toks[1] in ("gdm", "gdum") and case.lawful:
+                    pre = case.state["s" + reg[1]]["ents"]
+                    classes = [probe_cls(x) for x in toks[3].strip("[]").split(",") if x]
+                    dup_present = any(classes.count(c) > 1 and find(pre, c) is not None for c in classes)
+                    if dup_present and toks[1] == "gdm":
+                        if t["outcome"] != "panic:overlap":
+                            fails.append("%s get_disjoint_mut (zero-sized values) with a present key requested twice ended %s "
+                                         "with %s instead of panicking" % (reg, t["outcome"], t["ret"]))
+                    elif len(set(classes)) == len(classes) and t["outcome"] == "ok":
+                        want = "[" + ",".join(("+@%d=()" % [e[0] for e in pre].index(c)) if find(pre, c) is not None else "-"
+                                              for c in classes) + "]"
+                        if t["ret"] != want:
+                            fails.append("%s get_disjoint_mut (zero-sized values) returned %s, get_mut gives %s" % (reg, t["ret"], want))
                 for r2, sn in t["snaps"].items():
                     if sn is not None:
                         if "struct" in fam:
